@@ -282,11 +282,12 @@ def execute(res, runs, space_note="", deadline_total=None, max_confirm=40,
         res.add_counters({label + ":" + k: v for k, v in c.items()
                           if k in ("registries", "updates", "calls", "candidates", "crashes",
                                    "permutations", "abort_children", "histories")})
-        regs = c.get("registries", 0)
+        regs = c.get("registries", 0) or c.get("states", 0)
         res.states += regs
         res.traces += regs
         res.nontrivial += c.get("nontrivial", 0)
         res.transitions += c.get("updates", 0) + c.get("calls", 0) + c.get("registrations", 0) \
+            + c.get("transitions", 0) \
             + c.get("walks", 0) + c.get("report_fields", 0) + c.get("encodings", 0) \
             + c.get("decodes", 0) + c.get("generator_runs", 0)
         complete = not pr["deadline_hit"]
